@@ -181,13 +181,14 @@ fn run_case(seed: u64, mode: &str, thorough: bool, lean: &mut Lean, hist: &mut B
         // multi-thread clause: a second writer held right before the journal lock while the first one fails
         {
             let n = 1 + r.below(nsys as u64) as usize;
-            let run = run_child(&dir, seed, rot, &[("VERIF_SHIM_FAIL", format!("{n}:5")), ("VERIF_TWO_WRITERS", "1".into()), ("RUST_BACKTRACE", "0".into())]);
+            let second_is_persist = r.chance(1, 2);
+            let run = run_child(&dir, seed, rot, &[("VERIF_SHIM_FAIL", format!("{n}:5:once")), ("VERIF_TWO_WRITERS", if second_is_persist { "persist".into() } else { "insert".into() }), ("RUST_BACKTRACE", "0".into())]);
             *hist.entry("two-writer-runs".into()).or_insert(0) += 1;
             if let Some((at, res)) = &run.second {
-                if at != "end" && res == "ok" {
-                    fail!("impl-vs-oracle", "syscall {n} failing: operation #{at} of the first writer reported an error, yet a second writer that was waiting to enter the journal critical section was acknowledged afterwards (results of the first writer: {:?})", run.results.iter().map(|x| x.0.as_str()).collect::<Vec<_>>());
+                if at != "end" && at != "notheld" && res == "ok" {
+                    fail!("impl-vs-oracle", "syscall {n} failing: operation #{at} of the first writer reported an error, yet a second thread's {} that was waiting to enter the journal critical section was acknowledged afterwards (results of the first writer: {:?})", if second_is_persist { "persist(SyncAll)" } else { "insert" }, run.results.iter().map(|x| x.0.as_str()).collect::<Vec<_>>());
                 }
-                if at != "end" { *hist.entry("two-writer-runs-with-failure".into()).or_insert(0) += 1; }
+                if at != "end" && at != "notheld" { *hist.entry("two-writer-runs-with-failure".into()).or_insert(0) += 1; }
             }
         }
         let tries = if thorough { nsys } else { nsys.min(6) };
